@@ -116,6 +116,22 @@ def normalise_gj(fn):
                 out.append(st)
                 k += 1
             setattr(blk_owner, fld, out or [ast.Pass()])
+    # (d) `if T: ...; return v  else: REST` is `if T: ...; return v` followed by REST
+    def flatten(stmts):
+        out = []
+        for st in stmts:
+            for fld in ('body', 'orelse'):
+                if isinstance(getattr(st, fld, None), list) and not isinstance(st, ast.FunctionDef):
+                    setattr(st, fld, flatten(getattr(st, fld)))
+            if isinstance(st, ast.If) and st.orelse and st.body and isinstance(st.body[-1], (ast.Return, ast.Raise)):
+                rest = st.orelse
+                st.orelse = []
+                out.append(st)
+                out.extend(rest)
+            else:
+                out.append(st)
+        return out
+    new.body = flatten(new.body)
     # (c)
     M.set_parents(new)
     assigns = {}
@@ -444,6 +460,42 @@ def rule_returns(chk):
         else:
             chk.violated('gj-return-discipline', 'value:' + v, node=r, file=LA, func='gj_solve',
                          detail='gj_solve returns %s; callers test for 0.0 / non-zero' % v)
+    # "singular" is a statement about the matrix: whatever the failure tests compare the pivot with is a constant or is computed from the n x n block alone - a scale taken over the
+    # whole augmented array lets a large right-hand side declare a perfectly regular matrix singular
+    M.set_parents(fn)
+    for r in rets:
+        v = U(r.value) if r.value is not None else 'None'
+        guard = M.enclosing(r, (ast.If,))
+        if v not in ('1.0', '1') or guard is None:
+            continue
+        names = set(x.id for x in ast.walk(guard.test) if isinstance(x, ast.Name)) - set(['abs', 'fabs', 'float', 'tol'])
+        bad_scale = []
+        for nm in sorted(names):
+            defs_ = [a for a in ast.walk(fn) if isinstance(a, ast.Assign) and len(a.targets) == 1 and isinstance(a.targets[0], ast.Name) and a.targets[0].id == nm]
+            for a in defs_:
+                if isinstance(a.value, ast.Constant):
+                    continue
+                reads = [x for x in ast.walk(a.value) if isinstance(x, ast.Subscript) and U(x.value) == 'm']
+                # the defining statement, or the test that guards it, reads entries of m: which ones?
+                gi = M.enclosing(a, (ast.If,))
+                if gi is not None:
+                    reads += [x for x in ast.walk(gi.test) if isinstance(x, ast.Subscript) and U(x.value) == 'm']
+                for x in reads:
+                    lo_ = loops_over(x, fn)
+                    idx = x.slice
+                    okx = False
+                    if isinstance(idx, ast.BinOp) and isinstance(idx.op, ast.Add):
+                        # nt*row + col with col running over the columns of the matrix proper
+                        for colv in (idx.left, idx.right):
+                            if isinstance(colv, ast.Name) and lo_.get(colv.id) in ('range(n)', 'range(0,n)', 'range(colrange)', 'range(0,colrange)', 'range(eqns)', 'range(col+1,colrange)', 'range(rrcol+1,colrange)'):
+                                okx = True
+                            if isinstance(colv, ast.Name) and colv.id in ('col', 'rrcol'):
+                                okx = True
+                    if not okx:
+                        bad_scale.append('%s (from %s, index over %s)' % (nm, U(x), sorted(lo_.values())))
+        chk.decide(not bad_scale, 'gj-return-discipline', 'singularity-is-judged-on-the-matrix-alone@%d' % r.lineno, node=guard, file=LA, func='gj_solve',
+                   detail_bad='the failure test `%s` depends on %s: entries of the right-hand-side columns enter the threshold, so a well-conditioned system with a large right-hand side '
+                              '(|b|/|A| beyond 1e12) is reported singular' % (U(guard.test), '; '.join(bad_scale[:2])), detail_ok='pivot against a constant / a scale of the n x n block')
     # result extraction signature: result[nb*i + j] = m[nt*i + n + j]
     last_loops = [s for s in fn.body if isinstance(s, ast.For)]
     ext = last_loops[-1]
